@@ -467,21 +467,23 @@ func appendInt(dst []byte, bits uint8, index uint64) []byte {
 	}
 	b0 := uint64(1<<bits - 1)
 
-	if index <= b0 {
+	// A value equal to 2^N-1 does not fit the prefix either: the prefix with
+	// all bits set is what announces that octets follow, so it takes the
+	// prefix and one more octet of zero.
+	if index < b0 {
 		dst[len(dst)-1] |= byte(index)
 		return dst
 	}
 
 	dst[len(dst)-1] |= byte(b0)
 	index -= b0
-	for index != 0 {
+
+	for index >= 128 {
 		dst = append(dst, 128|byte(index&127))
 		index >>= 7
 	}
 
-	dst[len(dst)-1] &= 127
-
-	return dst
+	return append(dst, byte(index))
 }
 
 // readString reads string from a header field.
@@ -549,11 +551,14 @@ func appendString(dst, src []byte, encode bool) []byte {
 	// TODO: Encode only if length is lower with the string encoded
 
 	n := uint64(len(b))
-	nn := len(dst) - 1 // peek last byte
-	if nn >= 0 && dst[nn] != 0 {
-		dst = append(dst, 0)
-		nn++
-	}
+
+	// The length gets an octet of its own. Taking over a zero octet at the end
+	// of dst as if it had been left there for this purpose mistook the last
+	// octet of whatever came before for a placeholder whenever that happened
+	// to be zero: the continuation octet of an index equal to 2^N-1, or a
+	// Huffman-coded name that ends in zero bits.
+	nn := len(dst)
+	dst = append(dst, 0)
 
 	dst = appendInt(dst, 7, n)
 	dst = append(dst, b...)
@@ -612,7 +617,7 @@ func (hp *HPACK) AppendHeader(dst []byte, hf *HeaderField, store bool) []byte {
 				}
 			}
 		} else if !store || hp.DisableDynamicTable { // with or without indexing
-			dst = append(dst, 0, 0)
+			dst = append(dst, 0)
 		} else {
 			dst = append(dst, literalByte)
 			hp.addDynamic(hf)
